@@ -44,12 +44,14 @@ fn decode(tape: &[u16]) -> CrashCase {
         let rel = hist::RELS[t.below(2)].to_string();
         match t.below(10) {
             0..=3 => {
-                // effective insert: only rows not present (in-batch distinct)
+                // mostly effective inserts (rows not present, in-batch distinct); one in four may repeat
+                // a stored row or a row of the same batch (such a write changes nothing and must leave no trace)
                 let k = 1 + t.below(2);
+                let any_row = t.chance(1, 4);
                 let mut rows = Vec::new();
                 for _ in 0..k {
                     let r = dom[t.below(dom.len())].clone();
-                    if !m.rels.get(&rel).is_some_and(|s| s.contains(&r)) && !rows.contains(&r) {
+                    if any_row || (!m.rels.get(&rel).is_some_and(|s| s.contains(&r)) && !rows.contains(&r)) {
                         rows.push(r);
                     }
                 }
@@ -60,8 +62,11 @@ fn decode(tape: &[u16]) -> CrashCase {
                 }
             }
             4 | 5 => {
-                // effective delete
-                let present: Vec<_> = m.rels.get(&rel).map(|s| s.iter().cloned().collect()).unwrap_or_default();
+                // mostly effective deletes; one in four may name an absent row
+                let mut present: Vec<_> = m.rels.get(&rel).map(|s| s.iter().cloned().collect()).unwrap_or_default();
+                if t.chance(1, 4) {
+                    present = dom.clone();
+                }
                 if !present.is_empty() {
                     let r: Vec<i64> = present[t.below(present.len())].clone();
                     let op = Op::Delete(rel, vec![r]);
@@ -326,7 +331,7 @@ pub fn run(ctx: &Ctx) {
          the cut. evaluations counts histories; counters.crash_images counts images. Non-trivial = some crash point lies inside a \
          flush, compaction or drop. Distinct = distinct history + buffer size.",
     );
-    ctx.assume("effective writes and Int64 columns only, so findings C11-ineffective-writes-logged and C12-mixed-kind-column cannot masquerade as crash bugs");
+    ctx.assume("Int64 columns only, so finding C12-mixed-kind-column cannot masquerade as a crash bug; a quarter of the writes may be ineffective (duplicate insert / absent delete)");
     ctx.assume("power-loss model: only suffix loss of unsynced data per file and of unsynced entry operations per directory");
     ctx.run_part("crash_point_enumeration", ctx.cases(240, 4000), || tape_strategy(60).prop_map(|t| decode(&t)), |c, o| check(ctx, c, o));
 }
